@@ -68,6 +68,11 @@ LIB = {"A": _LIB % ("1", "", "k"), "B": _LIB % ("5", "(min = 0)", "2 * k"), "C":
 NSLOT = 4
 CONSTS = "".join("package C%d\n  constant Real k = 1;\nend C%d;\n" % (i, i) for i in range(NSLOT))
 SHADOW = "within P;\npackage C%d\n  constant Real k = %d;\nend C%d;\n"
+# pymoca's code generation cannot handle a qualified model name (CasADi's CodeGenerator takes ".Main_dae_residual" for
+# a file suffix and writes no ".c" file), so the codegen profile compiles this top-level class instead.  A class
+# that extends P.Main from outside P does not see the shadowing packages (pymoca looks the inherited names up from
+# the extending class), hence no model-changing additions in that profile.
+TOP = "model Top\n  extends P.Main;\nend Top;\n"
 OTHER = "model Other_%s\n  Real q;\nequation\n  q = 1;\nend Other_%s;\n"
 # addable files: id -> (folder, relative path, text).  0..3 change the model (top level / new subfolder of the
 # model folder / of the library folder), U0 / U1 are unrelated to the model.
@@ -118,7 +123,7 @@ PROFILES = {
         dict(_BASE, name="base+restart", depth=6, restart=True),
         dict(_BASE, name="options", depth=5, files=("main",), adds=(), opts=tuple(o for o in OPTIONS if o != "expand_mx")),
         dict(_BASE, name="files", depth=5, touch=True, adds=(0, 1, 2, 3, "U0", "U1"), opts=("plain", "elim_a"), ver=False),
-        dict(_BASE, name="codegen", depth=5, files=("main",), adds=(1,), opts=("plain", "expand_mx", "elim_a", "elim_b"), libs=False, mode=True),
+        dict(_BASE, name="codegen", depth=5, files=("main", "part"), adds=(), opts=("plain", "expand_mx", "elim_a", "elim_b"), libs=False, mode=True, init=(("top",),)),
     ],
 }
 REPLAY_PROFILE = dict(_BASE, name="replay", depth=None, mode=True, restart=True, touch=True, adds=tuple(ADDS), opts=tuple(OPTIONS))
@@ -176,6 +181,7 @@ class World:
         # what the cache code has been through *in this process*: "none" (no transfer_model yet), "compiled"
         # (only calls that found no cache file), "hit" / "miss" (outcome of the latest call that found one)
         self.proc = "none"
+        self.model = MODEL_NAME
         self.ref_in_child = False  # replay: keep the reference compile out of the observed process
         self.dry = False  # only compute the successor's description, leave the folder alone
         self._write(self.mdir, "P.mo", MAIN["A"])
@@ -272,6 +278,10 @@ class World:
             self.ver = ev[1]
         elif k == "mode":
             self.mode = ev[1]
+        elif k == "top":
+            # set-up pseudo-event (first in every history of the codegen profile): the model is the top-level class Top
+            self.model = "Top"
+            self._write(self.mdir, "Top.mo", TOP)
         elif k == "restart":
             self.proc = "none"  # the caller continues in a process that has not used pymoca yet
         elif k == "T":
@@ -282,13 +292,13 @@ class World:
         from pymoca.backends.casadi import api
 
         api.__version__ = VERSIONS[self.ver]
-        cfile = os.path.join(self.mdir, MODEL_NAME + ".pymoca_cache")
+        cfile = os.path.join(self.mdir, self.model + ".pymoca_cache")
         before = os.stat(cfile).st_mtime_ns if os.path.exists(cfile) else None
         cwd = os.getcwd()
         os.chdir(self.mdir)
         try:
             try:
-                m = api.transfer_model(self.mdir, MODEL_NAME, self.options())
+                m = api.transfer_model(self.mdir, self.model, self.options())
             except Exception as e:
                 return [("transfer-raises:" + common.exc_sig(e), "transfer_model raised %r in state %r (cache built from %r)" % (e, self.desc(), self.cache))]
             after = os.stat(cfile).st_mtime_ns if os.path.exists(cfile) else None
@@ -352,7 +362,7 @@ def expected(w):
     from pymoca.backends.casadi import api
     from pymoca.backends.casadi._options import _merge_default_options
 
-    k = (w.main, w.part, w.lib, tuple(sorted(w.extras, key=str)), w.opt, w.libsel)
+    k = (w.model, w.main, w.part, w.lib, tuple(sorted(w.extras, key=str)), w.opt, w.libsel)
     if k in _EXPECT:
         return _EXPECT[k]
     shared = _CFG.get("expect_dir")
@@ -365,7 +375,7 @@ def expected(w):
     o["expand_mx"] = True  # caching implies expanding to SX (transfer_model sets it); equal by value otherwise
     if o.get("cache") and o.get("codegen"):
         o["cache"] = False
-    m = api._compile_model(w.mdir, MODEL_NAME, o)
+    m = api._compile_model(w.mdir, w.model, o)
     _EXPECT[k] = mcache.canon(m)
     if path:
         tmp = "%s.%d.tmp" % (path, os.getpid())
@@ -450,7 +460,7 @@ def expand(hist):
     try:
         # a history of maximal length can only violate through a final transfer_model
         depth = _CFG["profile"]["depth"]
-        only_t = depth is not None and len(hist) + 1 >= depth
+        only_t = depth is not None and len([e for e in hist if e[0] != "top"]) + 1 >= depth
         if len(segs) == 1:
             return _expand_last(w, segs[0], only_t)
         for seg in segs[:-1]:
@@ -465,13 +475,20 @@ def run(ctx):
     os.makedirs(expect_dir, exist_ok=True)
     tot = {"states": 0, "transitions": 0}
     per, closed = [], True
-    for pr in PROFILES[ctx.tier]:
+    profiles = PROFILES[ctx.tier]
+    only = os.environ.get("VERIF_C20_PROFILES")  # development aid: run a subset of the tier's profiles
+    if only:
+        profiles = [pr for pr in profiles if pr["name"] in only.split(",")]
+        ctx.cap("only the profiles %s of the %s tier were run (VERIF_C20_PROFILES)" % (only, ctx.tier))
+    for pr in profiles:
         _init(pr, expect_dir, warm=False)
         with common.Pool(init=_init, initargs=(pr, expect_dir)) as pool:
             w0 = World()
+            for ev in pr.get("init", ()):
+                w0.apply(ev)
             k0 = w0.key()
             w0.drop()
-            st = bfs.search(ctx, pool, expand, init_key=k0, max_depth=pr["depth"])
+            st = bfs.search(ctx, pool, expand, init_key=k0, max_depth=pr["depth"], init_hist=pr.get("init", ()))
         per.append(dict(st, profile={k: (list(v) if isinstance(v, tuple) else v) for k, v in pr.items()}))
         tot["states"] += st["states"]
         tot["transitions"] += st["transitions"]
@@ -488,7 +505,7 @@ def run(ctx):
             "distinct_nontrivial": max(0, tot["states"] - len(per)),
             "reference_compiles": nexp,
             "exhaustive": True,
-            "bound": {"history_length": [pr["depth"] for pr in PROFILES[ctx.tier]], "closed_before_bound": closed},
+            "bound": {"history_length": [pr["depth"] for pr in profiles], "closed_before_bound": closed},
             "rule": "BFS, per profile (alphabet + history length, listed under 'profiles'), over {transfer_model; rewrite P.mo (model P.Main), "
             "Part.mo (second file of the model folder) or the library file with the other variant (touch: or the same one); add a .mo "
             "file that changes the flattened model (a package shadowing one the model uses: 0 = model folder, 1 = new subfolder of the "
